@@ -85,9 +85,10 @@ package errutil
 //@   ensures err != nil ==> result != nil
 //@   ensures[C16] err != nil ==> $cap == lvl - 1
 //@ func WrapWithDepth
-//@   props C10 C16
+//@   props C10 C16 C07
 //@   ensures err == nil ==> result == nil
 //@   ensures err != nil ==> result != nil
+//@   ensures[C07] err != nil ==> rootOf(result) == rootOf(err)
 //@   ensures[C16] err != nil ==> $cap == lvl - 1 - depth
 //@ func Wrapf
 //@   props C10 C16
@@ -99,7 +100,8 @@ package errutil
 //@   ensures err == nil ==> result == nil
 //@   ensures old(err) != nil ==> result != nil
 //@   ensures[C16] old(err) != nil ==> $cap == lvl - 1 - depth
-//@   loop 2: invariant err != nil
+//@   ensures[C07] old(err) != nil ==> rootOf(result) == rootOf(old(err))
+//@   loop 2: invariant err != nil && rootOf(err) == rootOf(old(err))
 //@ func JoinWithDepth
 //@   props C10 C13 C16
 //@   ensures countNonNil(errs, len(errs)) == 0 ==> result == nil
@@ -122,6 +124,7 @@ package errutil
 //@   props C10 C07 C16
 //@   ensures origErr == nil ==> result == nil
 //@   ensures origErr != nil ==> result != nil
+//@   ensures[C07] origErr != nil ==> typeis(rootOf(result), *barriers.barrierErr) && rootOf(result).(*barriers.barrierErr).maskedErr == origErr
 //@   ensures[C16] origErr != nil ==> $cap == lvl - 1 - depth
 //@ func NewAssertionErrorWithWrappedErrf
 //@   props C10 C07 C16
@@ -132,4 +135,5 @@ package errutil
 //@   props C10 C07 C16
 //@   ensures origErr == nil ==> result == nil
 //@   ensures origErr != nil ==> result != nil
+//@   ensures[C07] origErr != nil ==> typeis(rootOf(result), *barriers.barrierErr) && rootOf(result).(*barriers.barrierErr).maskedErr == origErr
 //@   ensures[C16] origErr != nil ==> $cap == lvl - 1 - depth
